@@ -376,6 +376,7 @@ Theorem C13_finalize_then_leaf_script_accepts_iff_k_signed :
   multisig_points C keys = Ok pts ->
   finalize_p2tr_multisig C sha256 sighash {| ti_items := [raw; cbs]; ti_points := Some pts |} sigs
     = Ok (items', true) ->
+  sigs_defined_ht sigs ->     (* 65-byte signatures carry a hash type BIP341 defines (interpreter rule since 746b81a) *)
   exists slots,
     items' = rev slots ++ [raw; cbs] /\ length slots = length keys /\
     rev (firstn (length items' - 2) items') = slots /\
@@ -410,6 +411,7 @@ Theorem C13_k_subset_leaf_spend_iff_all_signed :
   (forall P, In P pts -> forall sg, In sg sigs -> sg <> [] -> fin_check C sha256 sighash P sg <> Err) ->
   finalize_p2tr_multisig C sha256 sighash {| ti_items := [raw; cbs]; ti_points := Some pts |} sigs
     = Ok (items', true) ->
+  sigs_defined_ht sigs ->
   ((exists fuel, vloop C ripemd160 sha1 sha256 hash160 hash256 so c w fuel cs
                    (rev (firstn (length items' - 2) items') ++ r) a (fl_off true) = OTrue)
    <-> forall P, In P pts -> exists sg, In sg sigs /\ sg <> [] /\ fin_check C sha256 sighash P sg = Ok true).
@@ -431,6 +433,7 @@ Theorem C13_finalize_then_verify_input :
   multisig_points C keys = Ok pts ->
   finalize_p2tr_multisig C sha256 sighash {| ti_items := [raw; cbs]; ti_points := Some pts |} sigs
     = Ok (items', true) ->
+  sigs_defined_ht sigs ->
   length x = 32%nat -> hd 0 cbs <> 80 ->
   script_path_commit_check C sha256 x items' = Ok true ->
   witness_tap_script items' = Ok ts -> s_cmds ts = cs ->
